@@ -123,6 +123,24 @@ fn check(rep: &Report, acc: &mut Acc, it: &Item, rank: u64) {
                         let ext = if p.exts.is_empty() { "no-ext" } else { "ext" };
                         rep.violation(&format!("C19|label|{}|lt{}|{}|{}", p.kind.name(), p.lt, ext, tk), rank, || (format!("{}: peek returns {:?}, the packet carries label {}", it.desc, pk, want.short()), wit()));
                     }
+                    // a receiver whose storages are all held by other reassemblies: whatever it answers to this start
+                    // packet, it must not associate another PDU's label with it
+                    if t.is_empty() && p.kind == Kind::First {
+                        let f = p.frag_id.unwrap();
+                        let other = f.wrapping_add(1);
+                        let mut rxe = RxS::new(2, st, &[]);
+                        rxe.last = it.rx_last;
+                        rxe.mem.set_ctx(CtxS { label: L6B, pt: 0x86DD, frag_id: other, total_len: 40, pdu_len: 2, from_reuse: false, exts: vec![] }, vec![0u8; st]);
+                        let (oe, _) = step_decap(&rxe, &DefaultCrc {}, &mgr, &input);
+                        acc.transitions += 1;
+                        acc.calls += 1;
+                        acc.compared += 1;
+                        if let DecapOut::Fragmented { meta, .. } | DecapOut::Completed { meta, .. } = &oe {
+                            if Peek::Lbl(meta.label) != pk {
+                                rep.violation(&format!("C19|peek-vs-decap|{}|storage-exhausted", p.kind.name()), rank, || (format!("{}: peek {:?}; on a receiver whose only storage is held by a reassembly of id {} with another label, decap reports label {}", it.desc, pk, other, meta.label.short()), json!({"packet": hex(&it.bytes), "origin": it.desc, "receiver": {"slots": 2, "storage": st, "buffers": 0, "contexts": [{"label": L6B.short(), "pt": 0x86DD, "frag_id": other, "total_len": 40, "pdu_len": 2}]}, "decap": oe.brief()})));
+                            }
+                        }
+                    }
                     match dlabel {
                         Some(dl) => {
                             if Peek::Lbl(dl) != pk {
